@@ -152,6 +152,16 @@ func main() {
 	if maxPathsFlag > 0 {
 		cfg.maxPaths = maxPathsFlag
 	}
+	budget := 8 * time.Minute
+	if cfg.tier == "thorough" {
+		budget = 60 * time.Minute
+	}
+	if b := os.Getenv("VERIF_BUDGET_S"); b != "" {
+		if n, err := strconv.Atoi(b); err == nil {
+			budget = time.Duration(n) * time.Second
+		}
+	}
+	cfg.deadline = time.Now().Add(budget)
 	scratch, err := os.MkdirTemp("", "verif.")
 	if err != nil {
 		fmt.Println("INCONCLUSIVE: cannot create scratch directory:", err)
